@@ -180,6 +180,16 @@ def _token_to_str(token: Token) -> str:
     return str(token.value)
 
 
+def _string_token_source(value: Any) -> str:
+    """Spell a STRING token's value as a quoted literal that lexes back to the same token.
+
+    Token values are unescaped by the lexer; text that is emitted verbatim and read
+    again (holographic raw patterns, section annotations) must re-apply the escapes.
+    """
+    escaped = str(value).replace("\\", "\\\\").replace('"', '\\"').replace("\n", "\\n").replace("\t", "\\t")
+    return f'"{escaped}"'
+
+
 class ParserError(Exception):
     """Parser error with position information."""
 
@@ -387,7 +397,7 @@ class Parser:
             prev_len = len(str(prev.value))
         return prev.column + prev_len == bracket.column
 
-    def _consume_bracket_annotation(self, capture: bool = False) -> str | None:
+    def _consume_bracket_annotation(self, capture: bool = False, verbatim: bool = False) -> str | None:
         """Consume bracket annotation [content] if present.
 
         Handles nested brackets properly. Used for:
@@ -398,6 +408,8 @@ class Parser:
         Args:
             capture: If True, capture and return the annotation content.
                     If False, just skip the bracket block.
+            verbatim: If True, the captured text is emitted as-is and lexed again
+                    (section annotations), so STRING tokens keep their escapes.
 
         Returns:
             Captured annotation string if capture=True and brackets present,
@@ -450,7 +462,10 @@ class Parser:
                 # Use _token_to_str for consistent stringification of all
                 # value types (NUMBER with raw, BOOLEAN, NULL, VERSION,
                 # VARIABLE, STRING with quotes, IDENTIFIER, operators, etc.)
-                annotation_tokens.append(_token_to_str(tok))
+                if verbatim and tok.type == TokenType.STRING:
+                    annotation_tokens.append(_string_token_source(tok.value))
+                else:
+                    annotation_tokens.append(_token_to_str(tok))
             self.advance()
 
         # GH#276 rework: Return empty string for empty brackets FOO[]
@@ -845,7 +860,7 @@ class Parser:
 
         # Capture optional bracket annotation tail [...]
         # Example: §0::META[schema_hints,versioning]
-        annotation = self._consume_bracket_annotation(capture=True)
+        annotation = self._consume_bracket_annotation(capture=True, verbatim=True)
 
         # Issue #217: Don't skip comments here - preserve them for section children
         self.skip_whitespace(skip_comments=False)
@@ -2391,7 +2406,7 @@ class Parser:
             elif token.type == TokenType.LIST_END:
                 parts.append("]")
             elif token.type == TokenType.STRING:
-                parts.append(f'"{token.value}"')
+                parts.append(_string_token_source(token.value))
             elif token.type == TokenType.NUMBER:
                 # Use raw lexeme if available to preserve format (e.g., 1e10)
                 if token.raw is not None:
